@@ -27,7 +27,8 @@ import (
 // other serves logins and authenticated requests.  The simulated clock decides
 // token expiry; user placement histories decide log-in eligibility.
 
-const c09Token = "s3cr3t-token"
+// the configured token: a short word, a UUID (36 characters) or 64 hex digits, chosen per run
+var c09Tokens = []string{"s3cr3t-token", "0b9f6c1e-7a44-4d2b-9c3e-5f1a2b3c4d5e", "4f1c9a7e2b8d0635a1c4e7f9b2d6083157ac9e0b3d4f6a8c1e2b5d7f90a3c6e8"}
 
 type c09Harness struct {
 	s   *Sim
@@ -175,6 +176,7 @@ func doReq(h http.Handler, method, path, auth string, setAuth bool, body string,
 
 func runC09(s *Sim) {
 	wl := s.WL
+	c09Token := c09Tokens[wl.Draw(len(c09Tokens))]
 	in := s.NewInstance("a", c09Token)
 	if s.Failed() {
 		return
@@ -439,7 +441,8 @@ func runC09(s *Sim) {
 		set       bool
 	}{
 		{"absent", "", false}, {"empty", "", true}, {"token+space", c09Token + " ", true}, {"token-prefix", c09Token[:len(c09Token)-1], true},
-		{"token+x", c09Token + "x", true}, {"TOKEN-upper", strings.ToUpper(c09Token), true}, {"Bearer-only", "Bearer", true},
+		{"token+x", c09Token + "x", true}, {"token-last-char-changed", c09Token[:len(c09Token)-1] + "~", true},
+		{"token-tail-dropped", c09Token[:len(c09Token)-len(c09Token)/8], true}, {"TOKEN-upper", strings.ToUpper(c09Token), true}, {"Bearer-only", "Bearer", true},
 		{"Bearer-space", "Bearer ", true}, {"Bearer-garbage", "Bearer garbage", true}, {"Bearer-token", "Bearer " + c09Token, true},
 		{"lowercase-scheme", "bearer " + valid, true}, {"Basic", "Basic " + valid, true},
 		{"expired", "Bearer " + sign(jwt.SigningMethodHS256, h.key, now.Add(-2*time.Second), "someone"), true},
